@@ -19,6 +19,8 @@
 (*   [e:"junk", text]                a line that is not a message          *)
 (*   [e:"eof"]                       end of input (also: truncation)       *)
 (*   [e:"cmd", c, ...]               a user command                        *)
+(*   [e:"eval", ast]                 a matcher evaluated on every recorded   *)
+(*        message (no effect on the state; judged by Matcher!Sem)          *)
 (*   [e:"open", tag, role], [e:"close", tag]   the connection-id interface *)
 (*        used directly (GDB mode: libwayland connections come and go)     *)
 (***************************************************************************)
@@ -239,6 +241,7 @@ Step(S, ev) ==
     [] ev.e = "junk" -> JunkStep(S, ev)
     [] ev.e = "eof"  -> EofStep(S, ev)
     [] ev.e = "cmd"  -> CmdStep(S, ev)
+    [] ev.e = "eval" -> [S |-> S, out |-> <<>>, oc |-> "eval"]   \* a matcher evaluated on the recorded messages: no effect
     [] ev.e = "open" -> OpenStep(S, ev)
     [] ev.e = "close" -> CloseStep(S, ev)
 
